@@ -21,7 +21,7 @@ func lowerASCII(s string) string {
 
 func H_C13_guid_binary() {
 	raw := vBytes("raw", 16)
-	g := &GUID{}
+	g := &GUID{A: vU32("prev.A"), B: vU16("prev.B"), C: vU16("prev.C"), D: vU16("prev.D"), E: vU64("prev.E")} // a reused receiver
 	g.FromRawBytes(raw)
 	vCheck(vBytesEq(g.ToBytes(), raw), "guid/binary/format-parse-identity")
 	// MS-DTYP layout, written independently
